@@ -395,3 +395,13 @@ impl Pool {
         Ok(())
     }
 }
+
+/// Verification hook, compiled only with `--cfg radicle_verif`: re-exports the (otherwise
+/// private) Git request header parser used by the fetch responder and the upload-pack step
+/// that follows authorisation, so that conformance harnesses can drive them directly with
+/// header bytes and in-memory streams. Add-only; normal builds are unaffected.
+#[cfg(radicle_verif)]
+pub mod verif {
+    pub use super::upload_pack::pktline::{git_request, GitRequest, HEADER_LEN};
+    pub use super::upload_pack::upload_pack;
+}
